@@ -2,6 +2,7 @@
 MODULES = [
     "contracts.obs_kernel",
     "contracts.obs_grad",
+    "contracts.corr",
     "contracts.dirac",
     "contracts.special",
 ]
